@@ -16,7 +16,8 @@ func init() {
 		"(R3) FixLogLeaf: every error of the chain lookup, of its ASN.1 decoding (incl. trailing bytes) and of re-encoding is returned; leaf.ExtraData is stored only on all-success paths with the re-encoded full structure; a hash-form layout with a non-empty hash always goes through the lookup (the lookup is skipped only for an empty hash); full-chain layouts return nil without touching the leaf; no layout matched ⇒ error; "+
 		"(R4) writer and reader use the identical Go types: the writer stores asn1.Marshal(raw[1:]) of []ct.ASN1Cert under its hash and embeds (raw[0], hash); the reader decodes into []ct.ASN1Cert and re-inflates PrecertChainEntry{PreCertificate ← stored, CertificateChain ← chain} / CertificateChain{Entries ← chain} — the types the in-backend mode writes; "+
 		"(R5) add: key = SHA-256(chain), a storage error is returned, the cache is filled only after the storage write succeeded, a cache hit short-cuts only when err == nil and the entry is non-nil; getByHash: cache error or hit is returned as is, storage error is returned, the cache is filled only after a successful storage read; "+
-		"(R6) a chain read from storage is compared with its key (SHA-256) before use; (R7) the four extra-data layouts have the prefix widths FixLogLeaf's discrimination assumes. "+
+		"(R6) a chain read from storage is compared with its key (SHA-256) before use; (R7) the four extra-data layouts have the prefix widths FixLogLeaf's discrimination assumes; "+
+		"(R9) the cache only ever receives rows of the storage (what lets add skip the storage write on a cache hit): every call of the cache's Set anywhere in the module, followed through goroutines, helpers and wrappers to where its (key, chain) are produced, passes the chain read from storage under that key or the pair just written to storage, only after that storage call succeeded; Set is never taken as a function value; the LRU behind the cache is inserted into only by Set with Set's own pair. "+
 		"NOT covered: mutual unambiguity of the four layouts for all byte strings, cache expiry/eviction timing, SQL storage behaviour, the detached cache.Set goroutine's schedule.",
 		runC14)
 }
@@ -344,6 +345,9 @@ func runC14(r *Run) {
 
 	r.Rule("C14.R8")
 	c14Storage(r)
+
+	r.Rule("C14.R9")
+	c14CacheWriters(r)
 
 	r.Rule("C14.R7")
 	// prefix widths of the four layouts (what FixLogLeaf's probing order assumes)
